@@ -112,3 +112,12 @@ reg("C17", "translation_validation",
     "non-partial sequence on every match text and both obligations of Complete literals; each violation is re-confirmed against regexp and a fresh extractor run",
     "Bounded language (match texts up to 6-7 symbols in one-symbol contexts); regexp arbitrates witnesses.",
     "translation validation: exported artefact of the implementation checked by TLC against the TLA+ reference semantics", "DESIGN.md §6 C17")
+
+reg("C16", "model_checking",
+    "TLC enumerates the literal-set universe (singles to quadruples over nibble-colliding bytes, prefix/extension families, needles to 33 bytes, structured sets "
+    "of 8..100 literals) with PFind at every (haystack, offset) and PMatch; checks the Teddy model (buckets, nibble masks, block scan, verification order) "
+    "against PFind, the Tracker state machine and the candidate-loop shapes (NoSkip) with negative controls; the harness builds every prefilter the library "
+    "offers for each set (builder, pattern route, Teddy/FatTeddy, Aho-Corasick, memchr/memmem, wrappers, tracker) and compares Find at every offset and the "
+    "spans of complete prefilters (three-way with a naive loop and regexp), also embedded across vector-block boundaries, plain and under CPU masks",
+    _NOTE.replace("families of spec/Universe.tla, haystack length <= 3..5 symbols", "literal sets and haystacks of spec/MC_Prefilter.tla"),
+    "TLA+ prefilter/Teddy/Tracker models checked by TLC; TLC-generated vectors replayed into every prefilter implementation", "DESIGN.md §6 C16")
